@@ -136,4 +136,17 @@ theorem second_site_and_layouts_are_modelled_source :
     (["services", "*", "label_file", "*"], "absPath") ∈ CV.Gen.resolvers := by
   refine ⟨rfl, rfl, ?_, ?_, ?_, ?_⟩ <;> decide
 
+/-- **round 7 — the rows of `override.unique` that concern this property** (`Gen.unique`: the effective table after
+`init()`).  `services.*.env_file` is de-duplicated with `envFileIndexer` (what `uniqBy` / `enforceUnicityFiles` of
+`Model/EnvLayersUnicity.lean` model: first position, last entry — the recorded finding
+`repeated-path-first-position:env_file`), `services.*.environment` and `services.*.labels` with `keyValueIndexer`
+(`decodeLabels`), and **no row at all speaks about `label_file`**: a label_file list reaches `WithServicesLabelsResolved`
+in its written order, repeated paths included (seeded C16-9 adds such a row). -/
+theorem unicity_rows_are_modelled_source :
+    (CV.Gen.unique.filter fun r => r.1 == ["services", "*", "env_file"] || r.1 == ["services", "*", "environment"] ||
+        r.1 == ["services", "*", "labels"] || r.1.contains "label_file" || r.1.contains "env_file") =
+      [(["services", "*", "environment"], "keyValueIndexer"), (["services", "*", "env_file"], "envFileIndexer"),
+       (["services", "*", "labels"], "keyValueIndexer")] := by
+  decide
+
 end CV.C16Src
